@@ -145,6 +145,15 @@ add("C06", "other",
     "hang, no abort, span inside input, report printable, nothing of a rejected input executed. K3 (Go stack limit) is a known finding.",
     COMMON_NOTE, "Coq termination proof of the lexer model + totality testing of the real front end under time limit and crash detection")
 
+add("C07", "other",
+    "Partial. The documented-rules printer is a Coq function (Printer.v) and the grammar is a Coq function over the lexer model's "
+    "tokens (Grammar.v); PropC07.v holds the theorems proved about them. Decided each run: ~1500 systematic trees (every operator "
+    "pair in both nestings, every statement form in every body position) plus random and very deep trees are written out in 8 "
+    "layouts (spacing, blank lines, comments, redundant parentheses and braces) and parsed by the real parser.Parse; Coq compares "
+    "every result with the tree, compares the check's printer with Printer.v, the lexer model's tokens with the printed ones, and "
+    "the grammar model with parser.Parse on every layout and on ~1700 arbitrary (mostly rejected) inputs.",
+    COMMON_NOTE, "Coq printer + grammar model with round-trip theorems; differential run of parser.Parse against tree, printer and grammar model")
+
 PENDING_REASON = "check under construction in this round (the technique applies; see DESIGN.md section 6); not yet claimed"
 
 
